@@ -72,7 +72,7 @@ def run_shard(desc, R, tier):
 
 def eval_point(pt, R):
     import spectrum
-    x = np.asarray(pt['x'])
+    x = A.layout(pt, pt['x'])
     p = int(pt['p'])
     N = len(x)
     cplx = np.iscomplexobj(x)
@@ -91,7 +91,7 @@ def eval_point(pt, R):
     R.point(pt)
     R.calls()
     try:
-        xin = x.copy()
+        xin = A.clone(x)       # keeps a strided view strided
         a, P, k = spectrum.aryule(xin, p, 'biased')
         a = np.asarray(a)
         k = np.asarray(k)
